@@ -772,7 +772,7 @@ func (s *session) closeLocked() error {
 	if !s.tryChangeStatus(statusActiveClosing, statusOk, statusPreparing) {
 		return nil
 	} // readDisconnected is being called
-	s.peer.sessHub.delete(s.ID())
+	s.peer.sessHub.deleteSession(s)
 	s.notifyClosed()
 	s.graceCtxWait()
 	s.graceCallCmdWaitGroup.Wait()
@@ -792,7 +792,7 @@ func (s *session) readDisconnected(oldConn net.Conn, err error) {
 		s.changeStatus(statusPassiveClosing)
 	}
 
-	s.peer.sessHub.delete(s.ID())
+	s.peer.sessHub.deleteSession(s)
 
 	var reason string
 	if err != nil && err != socket.ErrProactivelyCloseSocket {
@@ -947,6 +947,8 @@ type SessionHub struct {
 	// key: session id (ip, name and so on)
 	// value: *session
 	sessions goutil.Map
+	// mu makes 'replace the session under an id' and 'delete this session' atomic.
+	mu sync.Mutex
 }
 
 // newSessionHub creates a new sessions hub.
@@ -959,11 +961,14 @@ func newSessionHub() *SessionHub {
 
 // set sets a *session.
 func (sh *SessionHub) set(sess *session) {
+	sh.mu.Lock()
 	_sess, loaded := sh.sessions.LoadOrStore(sess.ID(), sess)
 	if !loaded {
+		sh.mu.Unlock()
 		return
 	}
 	sh.sessions.Store(sess.ID(), sess)
+	sh.mu.Unlock()
 	if oldSess := _sess.(*session); sess != oldSess {
 		oldSess.Close()
 	}
@@ -1005,6 +1010,18 @@ func (sh *SessionHub) len() int {
 
 // delete deletes the *session for a id.
 func (sh *SessionHub) delete(id string) {
+	sh.sessions.Delete(id)
+}
+
+// deleteSession deletes the *session from the hub,
+// unless a newer session has already taken over its id.
+func (sh *SessionHub) deleteSession(sess *session) {
+	sh.mu.Lock()
+	defer sh.mu.Unlock()
+	id := sess.ID()
+	if _sess, ok := sh.sessions.Load(id); ok && _sess.(*session) != sess {
+		return
+	}
 	sh.sessions.Delete(id)
 }
 
